@@ -28,6 +28,10 @@ CLAIMS = {
    text='Partial (dispatch soundness, a necessary condition only): every RTCD table entry at level i comes from a TU whose -m ISA flags are within level i, selectable entries non-NULL, max(opus_select_arch) indexes an initialised entry, every table use is masked, no direct call into a TU with more ISA flags, and each level is returned only after CPUID tests covering the flags its kernels were compiled with. Numerical/bit identity of SIMD kernels vs C is NOT decided (run-time relation).',
    note=TRUST + 'CPUID feature-bit table (leaf/register/bit) in the checker; -m flags from the cmake compilation database.',
    technique='function-pointer table predicates joined with compile-database ISA flags + must-dataflow over the CPU-detection CFG'),
+ 'C16': dict(category='other',
+   text='Partial: every byte store of the extension generator happens with len-pos >= 1 (interval analysis of the ghost difference len-pos) or under a dominating len-pos check built from the loop/copy length terms, failing checks return OPUS_BUFFER_TOO_SMALL; data!=NULL controls only stores through data (dry-run size = written size); argument validation precedes use and all 35 subscripts of the 48-entry tables are proven in range; iterator/skip helpers read packet bytes only under a positive-length fact; an extension is reported only after its payload was validated and frame-counter changes are range-checked; repacketizer count/parse passes agree. Round-trip equality parse(generate(x))=x is NOT decided.',
+   note=TRUST + 'One inter-procedural read (curr_data0[1]) is a frozen, reasoned exception re-checked against the callee-result test.',
+   technique='interval-set abstract interpretation with a tracked difference variable (len-pos) + control-dependence (dry-run) rule + edge-dominance guard facts'),
  'C17': dict(category='other',
    text='Partial: the data clauses are decided exhaustively (every iCDF table reaching a coder call is strictly decreasing/zero-terminated from every offset; PVQ U table equals the exact recurrence, V<2^32 and in-row for every reachable (N,K); pulse cache equals ceil(8 log2 V)-1 and is monotone; Laplace parameters within preconditions). Bijectivity of cwrsi/icwrs and Laplace tiling are NOT decided.',
    note=TRUST + 'Python port of log2_frac as generator oracle for the pulse cache.',
